@@ -30,10 +30,22 @@ C = {
          "PARTIAL: the d/L edge effect for arbitrary records is swept with a 0.35 rad allowance; detrend linearity for orders 0..2 is covered by the oracle", T_GEN_K),
  "C08": ("Order-0 detrending proved to remove constants exactly on the regenerated Numba kernel; order -1 raw by definition; each channel detrended with its own coefficients (regenerated cross kernels = reference).", "7/C08",
          "PARTIAL: orders 1,2 rely on the LAPACK QR contract, validated numerically every run and swept with trends of size 1 and 1e3 on 4 backends", T_GEN_K),
+ "C12": ("alpha(psll) proved strictly increasing; the DFT-even Kaiser construction is re-extracted from source (T3) and checked; kaiser_alpha tied bit-exactly; side-lobe level swept on the implementation with the property's own P-1 dB threshold.", "7/C12",
+         "PARTIAL: the Kaiser-Bessel side-lobe bound is not a theorem (Bessel analysis over a continuum; no library support) — swept", T_HAND),
  "C13": ("Shape normalisation model (Ingest.v) proved layout-independent and tied by vm_compute correspondence; sanitising proved idempotent/finite at binary64; guarded divisions on the regenerated table; caller bytes, zero-filled equality, finiteness on real runs.", "7/C13",
          "NumPy aliasing is observed not modelled; F11 (overflow/underflow of XX*YY for |x| ~ 1e120 / 1e-150) is a recorded finding", T_HAND),
  "C14": ("Any interleaving of a loop writing only slot j is deterministic (Race theorem) and T1's effect summaries show all 12 parallel kernels have that form; plan-cache and attribute-cache histories proved equivalent to fresh objects; thread/chunk sweep, random histories and access orders on the implementation.", "7/C14",
          "Numba's scheduler and memory model are not modelled (theorem is about the effect summary extracted from source)", "Coq theorems (schedule/history independence) + effect summary regenerated from source + sweeps"),
+ "C15": ("The residual expression with the code's index/conjugate pairing is proved equal to |Y - sum conj(H_i) X_i|^2 per segment for q = 1, 2 (hence >= 0 for any H), the one-input residual at the solution equals S00 - |S10|^2/T11 and lies in [0, S00]; exact combinations give 0; reordering invariance (q=2). Source pairing checked by AST; solvers exercised for q = 1..3.", "7/C15",
+         "PARTIAL: q >= 3, re-mixing invariance and analytic = numeric are decided on the implementation; sympy/np.linalg solve are oracles", T_HAND),
+ "C16": ("Taps model mirrors lagrange_taps operation for operation (bit-exact correspondence); integer shift = unit tap proved for every order; textbook weights proved for orders 1 and 3; exact-rational evaluation against the textbook product for the other orders; polynomial exactness, paths, wrapper by the oracle.", "7/C16",
+         "PARTIAL: textbook identity for orders 5..111 is an exact-rational test at 2*halfp+1 fractions per order, not a theorem", T_HAND),
+ "C17": ("Cascade and generator model for any carrier (bit-exact at binary64): filter state carried across blocks, any sequence of block requests = one request (samples and state); tied by bit-exact correspondence with alpha/pink/red generators on the recorded white stream.", "7/C17",
+         "numpy Generator.normal and scipy lfilter are oracles whose contracts are validated each run", T_HAND),
+ "C18": ("Hermitian construction of fftnoise proved as an index map for every length; section DC gain fmax/fmin, Nyquist gain 1, pole inside the unit circle and the closed-form |H|^2 proved; coefficients tied bit-exactly; power-law fit swept analytically.", "7/C18",
+         "PARTIAL: 'within about 1 dB of f^-alpha' is an approximation statement, swept with a 2 dB allowance on the interior of the band", T_HAND),
+ "C19": ("Trapezoid integral additive at grid points, monotone under band nesting, zero for point/empty bands; order-0 detrend orthogonal, idempotent, kills constants; integral_rms tied bit-exactly at binary64.", "7/C19",
+         "PARTIAL: detrend orders 1..5 rest on np.polyfit's least-squares contract (checked numerically); Parseval link is statistical", T_HAND),
  "C20": ("asd^2=psd, ps=psd*ENBW, cs=csd*ENBW, cf=|Hxy|, cf_db, deg/rad, conjugates, aliases and the exact None table proved on the regenerated attribute table; interpolation, DataFrame export, copy/pickle by the direct oracle.", "7/C20",
          "interpolation / pandas export / Python copy protocol are exercised on real results, not modelled", T_GEN_A),
 }
